@@ -71,7 +71,11 @@ def build_tu(tu, kind):
     os.makedirs(d, exist_ok=True)
     src = os.path.join(ROOT, 'scenarios', f'{tu}_{kind}.cpp')
     exe = os.path.join(d, f'{tu}_{kind}')
-    flags = VRT_FLAGS if kind == 'vrt' else SEQ_FLAGS
+    flags = list(VRT_FLAGS if kind == 'vrt' else SEQ_FLAGS)
+    # a scenario may add compiler flags of its own on a line '// VERIF_FLAGS: ...' near its top (and says there why)
+    for line in open(src).read().split('\n')[:12]:
+        if line.startswith('// VERIF_FLAGS:'):
+            flags += line.split(':', 1)[1].split()
     extra = [os.path.join(ROOT, 'scenarios', f) for f in os.listdir(os.path.join(ROOT, 'scenarios')) if f.endswith('.h')]
     stamp = tree_hash(src_files() + engine_files() + extra + [src]) + ' ' + ' '.join(flags) + ' ' + REPO
     sf = exe + '.stamp'
